@@ -101,6 +101,13 @@ def build():
     u.verify(S, "fetch", "account::storage", props=["C11"], fns={"fetch": FnSpec(ret="r", ghost=True, sig=FETCH_SIG)})
     u.verify(S, "save", "account::storage", props=["C11"], fns={"save": FnSpec(ret="r", ghost=True, sig=SAVE_SIG)})
     u.raw("account::storage", LEMMA)
+    u.ghost_call("save", method=True)
+    u.verify(A, "Account::save", "account", props=["C11"], fns={"save": FnSpec(ret="r", ghost=True, sig="""
+    ensures final(w).saves <= old(w).saves + 1, r is Ok ==> final(w).saves == old(w).saves + 1,
+        // the account file is written in this account's own directory and holds this very account
+        r is Ok ==> (final(w).file matches Some(b) && crate::bincode::dec::<crate::account::storage::AccountStorage>(b) matches Some(s)
+            && crate::account::storage::stored_as(*self, s)), //@C11.account_file_holds_the_whole_account
+""")})
     u.verify(A, "Account::load", "account", props=["C11"], fns={"load": FnSpec(ret="r", ghost=True, sig=LOAD_SIG,
              rewrites=[chain_rw("load"), ("T-MAP", r"HashMap::new\(\)", "crate::shims::new_strmap()", None), ("T-PARSE", r"(?P<e>\bkt|\bsa)\.parse\(\)", r"crate::shims::parse_text(\g<e>)", None)])})
     return u
